@@ -110,45 +110,18 @@ func c05r2(c *core.Ctx) {
 		c.Undecided("Decrypt", token.NoPos, "not found")
 		return
 	}
-	// the length variable: target of the first stream read whose target is *uint16
-	var lengthAlloc *ssa.Alloc
-	var reader ssa.Value
-	core.Instrs(dec, func(i ssa.Instruction) {
-		if t, r, ok := isStreamRead(i); ok {
-			if a, isA := t.(*ssa.Alloc); isA && lengthAlloc == nil {
-				if b, isB := a.Type().(*types.Pointer).Elem().Underlying().(*types.Basic); isB && b.Kind() == types.Uint16 {
-					lengthAlloc, reader = a, r
-				}
-			}
-		}
-	})
-	if lengthAlloc == nil {
+	// the length as read from the stream (a uint16 variable, or two bytes decoded with LittleEndian.Uint16; locals or fields)
+	m := buildFrameModel(dec)
+	if m.length == nil {
 		c.Undecided("length-read@"+fname(dec), dec.Pos(), "no stream read of a 16-bit length found in Decrypt")
 		return
 	}
-	_ = reader
-	stores := 0
-	for _, r := range *lengthAlloc.Referrers() {
-		if st, ok := r.(*ssa.Store); ok && st.Addr == lengthAlloc {
-			stores++
-		}
-	}
-	c.Check(stores == 0, "length-unmodified@"+fname(dec), lengthAlloc.Pos(), "the length read from the stream is never reassigned",
+	c.Check(m.lengthWrites() == 0, "length-unmodified@"+fname(dec), m.length.call.Pos(), "the length read from the stream is never reassigned",
 		"the length variable read from the stream is reassigned before use: the authenticated length is no longer the one on the wire")
-	isLen := func(v ssa.Value) bool {
-		return core.AllSources(v, func(s ssa.Value) bool {
-			u, ok := s.(*ssa.UnOp)
-			return ok && u.Op == token.MUL && u.X == ssa.Value(lengthAlloc)
-		})
-	}
+	isLen := m.isLength
 	for _, s := range core.FindCalls(dec, isDecryptCall) {
 		args := core.Args(s)
-		a := allocOf(args[4])
-		okAAD := false
-		if a != nil {
-			val, bits, little, _ := putUint(dec, a)
-			okAAD = val != nil && bits == 16 && little && isLen(val)
-		}
+		okAAD := m.isLengthBytes(args[4], dec)
 		c.Check(okAAD, "aad@"+fname(dec), posOf(s), "AAD = little-endian 16-bit encoding of the length exactly as read",
 			"the associated data of the AEAD open is not the 2 length bytes as read from the stream: an altered length field is not detected")
 		// ciphertext buffer sized by the same value
@@ -157,6 +130,9 @@ func c05r2(c *core.Ctx) {
 			if ms, ok := src.(*ssa.MakeSlice); ok && isLen(ms.Len) {
 				sized = true
 			}
+		}
+		if m.body != nil && m.holds(args[2], m.body.st) {
+			sized = true // the buffer read from the stream, which was made with that length
 		}
 		c.Check(sized, "ciphertext-size@"+fname(dec), posOf(s), "the ciphertext read is sized by the same length value", "the ciphertext buffer is not sized by the length that is authenticated")
 	}
@@ -318,6 +294,7 @@ func c05r4(c *core.Ctx) {
 		}
 	}
 	// first failure is fatal
+	fm := buildFrameModel(dec)
 	isFail := func(v ssa.Value) (call ssa.Instruction, isLengthRead bool) {
 		for _, src := range core.Sources(v) {
 			var ci ssa.Instruction
@@ -334,13 +311,8 @@ func c05r4(c *core.Ctx) {
 			if isDecryptCall(ci) {
 				return ci, false
 			}
-			if t, _, ok := isStreamRead(ci); ok {
-				if a, isA := t.(*ssa.Alloc); isA {
-					if b, isB := a.Type().(*types.Pointer).Elem().Underlying().(*types.Basic); isB && b.Kind() == types.Uint16 {
-						return ci, true
-					}
-				}
-				return ci, false
+			if _, _, ok := isStreamRead(ci); ok {
+				return ci, fm.length != nil && ssa.Instruction(fm.length.call) == ci
 			}
 			if cc, ok := ci.(*ssa.Call); ok && cc.Call.IsInvoke() && cc.Call.Method.Name() == "Read" {
 				return ci, false
@@ -366,6 +338,7 @@ func c05r4(c *core.Ctx) {
 						if core.IsNilConst(bin.X) {
 							v = bin.Y
 						}
+						v = pa.ResolveAt(k, v) // a merged error variable stands for the error this path produced
 						if ci, _ := isFail(v); ci != nil {
 							if (bin.Op == token.NEQ && tookTrue) || (bin.Op == token.EQL && !tookTrue) {
 								failed = true
@@ -381,7 +354,7 @@ func c05r4(c *core.Ctx) {
 									if side == bin.X {
 										other = bin.Y
 									}
-									if _, isLen := isFail(other); isLen && ((bin.Op == token.EQL && tookTrue) || (bin.Op == token.NEQ && !tookTrue)) {
+									if _, isLen := isFail(pa.ResolveAt(k, other)); isLen && ((bin.Op == token.EQL && tookTrue) || (bin.Op == token.NEQ && !tookTrue)) {
 										eofOnLength = true
 									}
 								}
@@ -483,16 +456,11 @@ func c05r5(c *core.Ctx) {
 	c.Check(len(w.Params) == 5 && is16(w.Params[3].Type()), "tag-param@"+fname(w), w.Pos(), "the wrapper takes a [16]byte tag", "the AEAD wrapper's tag parameter is not [16]byte")
 	for _, s := range core.FindCalls(dec, isDecryptCall) {
 		tag := core.Args(s)[3]
+		m := buildFrameModel(dec)
 		read := false
-		for _, src := range core.Sources(tag) {
-			if u, ok := src.(*ssa.UnOp); ok {
-				if a, ok := u.X.(*ssa.Alloc); ok && is16(a.Type().(*types.Pointer).Elem()) {
-					core.Instrs(dec, func(i ssa.Instruction) {
-						if t, _, ok := isStreamRead(i); ok && t == ssa.Value(a) {
-							read = true
-						}
-					})
-				}
+		if m.tag != nil {
+			if arr, ok := m.elemType(m.tag.st).Underlying().(*types.Array); ok && arr.Len() == 16 && m.holds(tag, m.tag.st) {
+				read = true
 			}
 		}
 		c.Check(read, "tag-read@"+fname(dec), posOf(s), "the tag passed to the open is the 16 bytes read from the stream after the ciphertext", "the tag passed to the AEAD open is not a 16-byte value read from the stream")
